@@ -11,6 +11,7 @@ Inductive oev :=
 | ONew (c a : Z)                               (* handler of association c started; its RemoteAddr is a *)
 | ORead (c id : Z) (fresh : bool) (off len : Z) (* Read returned bytes [off, off+len) of datagram id; id = -1: unrecognisable bytes *)
 | OEof (c : Z)
+| OIdle (c : Z)                                (* the harness made c's idle timer fire during the Read that returns next *)
 | ODeadline (c : Z)
 | OWrite (c w a : Z)                           (* association c wrote reply w; WriteTo was given address a *)
 | ORet (c : Z)
@@ -46,6 +47,7 @@ Fixpoint conv (all : list oev) (tr : list oev) : option (list ev) :=
               | None => None
               end
           | OEof c => Some (EEof (n c) :: r')
+          | OIdle c => Some (EIdle (n c) :: r')
           | ODeadline c => Some (EDeadline (n c) :: r')
           | OWrite c w a => if (0 <=? a) && (0 <=? c) then Some (EWrite (n c) (n w) (n a) :: r') else None
           | ORet c => Some (ERet (n c) :: r')
